@@ -62,6 +62,7 @@ Record env := {
   adverbs : list str;                  (* is_adverb *)
   adverb_arity : str -> nat -> nat;    (* get_adverb_arity *)
   reserved : list str;                 (* reserved_fn_args *)
+  arity_monad_operand : bool;          (* get_fn_arity also scans f.args when it is a single operand (not a list, not None) *)
   modname : option str;                (* KlongInterpreter._module while the text is parsed: read_sym qualifies names with it *)
   comment_guard : bool                 (* read_sys_comment's loop tests `a and …` *)
 }.
@@ -353,7 +354,8 @@ Fixpoint rsyms (a : ast) : list str :=
   | AFn f args _ | ACall f args _ =>
       rsyms f ++ match args with
                  | APy l | ACond l | AExprArr l => flat_map rsyms l
-                 | _ => []
+                 | ANone => []
+                 | _ => if arity_monad_operand E then rsyms args else []
                  end
   | APy l | ACond l | AExprArr l => flat_map rsyms l
   | ASym s => if str_in s (reserved E) then [s] else []
